@@ -327,15 +327,13 @@ class DiameterAssociation(object):
 
     def get_message(self) -> Type[DiameterMessage]:
         while not self._stop_threads:
-            if self.postprocess_recv_messages.empty():
-                self.postprocess_recv_messages_ready.wait()
-                diameter_conn_logger.debug("Got go ahead for "\
-                                           "postprocess_recv_messages_ready")
-            else:
-                diameter_conn_logger.debug("No need to wait for go ahead for "\
-                                           "postprocess_recv_messages_ready")
-    
-            return self.get_postprocess_recv_message()
+            try:
+                msg = self.postprocess_recv_messages.get(timeout=1)
+            except queue.Empty:
+                continue
+
+            make_logging(msg)
+            return msg
 
 
     def tracking_events(self) -> None:
